@@ -109,10 +109,7 @@ Fixpoint run_draws (imgs : list (list (list spx) * N)) (st : hstate)
          (draws : list dop) : bool * bool :=
   match draws with
   | [] => (true, true)
-  | DSize n :: r =>
-      (* from here on entries may be evicted: a re-encoded image may use another strip order,
-         so the specification side only asks that every draw decodes to its view *)
-      run_draws imgs (fst st, n) [] r
+  | DSize n :: r => run_draws imgs (fst st, n) seen r
   | DDraw k impl size entries :: r =>
       let '(rows, key) := nth k imgs ([], 0) in
       let st' := snd (hdraw sixel_cache_limit st key (match impl with [] => None | _ => Some impl end)) in
@@ -122,9 +119,12 @@ Fixpoint run_draws (imgs : list (list (list spx) * N)) (st : hstate)
         | None => first_draw_agrees rows impl
         end && (snd st' =? size) && Nat.eqb (length (fst st')) entries in
       let h :=
-        match drawn_before rows seen with
-        | Some bytes => nlist_eqb bytes impl       (* the same bytes were decoded and checked for this content *)
-        | None => first_draw_holds rows impl
+        (* "again emits identical bytes" is required while the entry is cached (the LRU semantics of
+           Image/SixelCache.v: C12_repeat_while_cached); an evicted image may be re-encoded under
+           another strip order and must then only decode to its view *)
+        match drawn_before rows seen, c_find key (fst st) with
+        | Some bytes, Some _ => nlist_eqb bytes impl
+        | _, _ => first_draw_holds rows impl
         end in
       let '(a', h') := run_draws imgs st' ((rows, impl) :: seen) r in
       (a && a', h && h')
